@@ -3,7 +3,7 @@ import json
 
 from ..flow import standard_flow
 
-NH = {"quick": 150, "thorough": 3000}
+NH = {"quick": 150, "thorough": 1200}
 
 
 def stats(cases):
